@@ -12,9 +12,11 @@ META = {
     "note": "Trusted: TLC, Go toolchain, math/big and time for concretisation (re-derived and compared). The state of a String after a failed read is not specified by the statement and is not compared. Fixed-size builders, Unwrite, SetError, AddValue and MarshalASN1 are not modelled. ReadBytes(…, 0) on a nil String (reports failure upstream too) is treated as a no-op by the harness.",
 }
 
-QUICK = dict(MENUS='{"small","large"}', S_ITEMS=3, S_DEPTH=2, L_ITEMS=1, L_DEPTH=1)
-THOROUGH = [dict(MENUS='{"small"}', S_ITEMS=3, S_DEPTH=3, L_ITEMS=0, L_DEPTH=0),
-            dict(MENUS='{"large"}', S_ITEMS=0, S_DEPTH=0, L_ITEMS=2, L_DEPTH=1)]
+SIZES = "{0,1,127,128,254,255,256}"
+QUICK = dict(MENUS='{"small","large","bounds"}', S_ITEMS=3, S_DEPTH=2, L_ITEMS=1, L_DEPTH=1, B_SIZES=SIZES, B_BIG="{65535,65536}")
+THOROUGH = [dict(MENUS='{"small"}', S_ITEMS=3, S_DEPTH=3, L_ITEMS=0, L_DEPTH=0, B_SIZES="{}", B_BIG="{}"),
+            dict(MENUS='{"large","bounds"}', S_ITEMS=0, S_DEPTH=0, L_ITEMS=2, L_DEPTH=1,
+                 B_SIZES="{0,1,126,127,128,129,254,255,256,257}", B_BIG="{65534,65535,65536,65537}")]
 
 
 def run(ctx):
